@@ -2,4 +2,5 @@ import TinyFlux.Audit.Tool
 import TinyFlux.Props.C16
 import TinyFlux.Props.C16EndToEnd
 import TinyFlux.Props.C16State
+import TinyFlux.Props.C16Witness
 #audit TinyFlux.Props.C16
